@@ -184,7 +184,9 @@ def starts_case(ctx, case):
     # ---- the random start rule used by SamplingEval and FJSP multi-start: rl4co.utils.ops.sample_n_random_actions --------
     from rl4co.utils.ops import sample_n_random_actions
 
-    n_cust = mask[:, 1:].sum(1)
+    # the rule draws from ALL valid actions of the reset mask (column 0 included: a node like any other for TSP / FLP / MCP, the
+    # depot where the reset mask offers it), so "at least k feasible starts" counts all of them
+    n_cust = mask.sum(1)
     lo = int(n_cust.min())
     for k in sorted(set(x for x in (lo - 1, lo, lo + 1, 2, int(n_cust.max())) if x >= 1)):
         torch.manual_seed(seed + 100 + k)
@@ -209,7 +211,7 @@ def starts_case(ctx, case):
             if bad:
                 ctx.violation(sig_of(cfg, q="start_infeasible", **label), f"random forced start(s) {bad} of instance {b} are not in its reset mask", dict(k=k, B=B, row=b, starts=mine, mask=mask[b].int().tolist()))
             elif int(n_cust[b]) >= k and len(set(mine)) != len(mine):
-                ctx.violation(sig_of(cfg, q="start_duplicates", **label), f"instance {b} has {int(n_cust[b])} feasible non-depot starts but its {k} random forced starts repeat: {mine} (fewest in the batch: {lo})",
+                ctx.violation(sig_of(cfg, q="start_duplicates", **label), f"instance {b} has {int(n_cust[b])} feasible starts but its {k} random forced starts repeat: {mine} (fewest in the batch: {lo})",
                               dict(k=k, B=B, row=b, starts=mine, n_feasible=n_cust.tolist()))
             ctx.nontrivial_case(dict(e=name, k=k, m=mask[b].int().tolist(), s=mine, r="random"))
     ctx.sample(dict(case=case, default_num_starts=default_k))
